@@ -92,6 +92,54 @@ pub fn lang_eq(a: &V, b: &V) -> bool {
     }
 }
 
+/// `==` where the documentation and the properties leave the answer open: a list that holds a
+/// NaN compared with itself (same storage). Element-wise IEEE comparison says "not equal",
+/// roto answers "equal" because it compares the storage first; neither is asserted.
+/// `None` = the answer depends on that choice.
+pub fn lang_eq_spec(a: &V, b: &V) -> Option<bool> {
+    fn all(rs: impl Iterator<Item = Option<bool>>) -> Option<bool> {
+        let mut open = false;
+        for r in rs {
+            match r {
+                Some(false) => return Some(false),
+                None => open = true,
+                Some(true) => {}
+            }
+        }
+        if open { None } else { Some(true) }
+    }
+    match (a, b) {
+        (V::Rec(x), V::Rec(y)) => {
+            if x.len() != y.len() {
+                return Some(false);
+            }
+            all(x.iter().map(|(n, v)| match y.iter().find(|(m, _)| m == n) {
+                Some((_, w)) => lang_eq_spec(v, w),
+                None => Some(false),
+            }))
+        }
+        (V::Enum(n, x), V::Enum(m, y)) => {
+            if n != m || x.len() != y.len() {
+                return Some(false);
+            }
+            all(x.iter().zip(y).map(|(a, b)| lang_eq_spec(a, b)))
+        }
+        (V::List(x), V::List(y)) => {
+            if Rc::ptr_eq(x, y) {
+                let x = x.borrow();
+                return if x.iter().all(|a| lang_eq(a, a)) { Some(true) } else { None };
+            }
+            let x = x.borrow();
+            let y = y.borrow();
+            if x.len() != y.len() {
+                return Some(false);
+            }
+            all(x.iter().zip(y.iter()).map(|(a, b)| lang_eq_spec(a, b)))
+        }
+        _ => Some(lang_eq(a, b)),
+    }
+}
+
 /// Harness-level comparison of observed vs expected values: exact, bitwise for
 /// floats except that any NaN equals any NaN.
 pub fn same(a: &V, b: &V) -> bool {
@@ -223,6 +271,8 @@ pub enum Stop {
     /// the language leaves this undefined / the process would trap: (kind)
     Trap(&'static str),
     Budget,
+    /// the result depends on something neither the documentation nor the properties fix
+    Unspecified(&'static str),
     Unsupported(String),
 }
 
@@ -233,6 +283,7 @@ pub struct Interp<'a> {
     pub inputs: Vec<u64>,
     pub log: Vec<Ev>,
     pub consts: HashMap<String, V>,
+    consts_ready: bool,
     pub steps: u64,
     pub budget: u64,
     pub depth: u32,
@@ -294,6 +345,7 @@ impl<'a> Interp<'a> {
             inputs,
             log: Vec::new(),
             consts: HashMap::new(),
+            consts_ready: false,
             steps: 0,
             budget,
             depth: 0,
@@ -333,6 +385,14 @@ impl<'a> Interp<'a> {
     }
 
     pub fn call_fn(&mut self, idx: usize, args: Vec<V>) -> R {
+        if self.depth == 0 && !self.consts_ready {
+            // constants are evaluated while the script is compiled: what their initialisers
+            // log is not part of any call
+            self.consts_ready = true;
+            let r = self.eval_consts();
+            self.log.clear();
+            r?;
+        }
         self.tick()?;
         self.depth += 1;
         if self.depth > 200 {
@@ -447,6 +507,9 @@ impl<'a> Interp<'a> {
 
     pub fn compare(&mut self, op: BinOp, a: &V, b: &V) -> R {
         self.path.cmp_ops += 1;
+        if matches!(op, BinOp::Eq | BinOp::Ne) && lang_eq_spec(a, b).is_none() {
+            return Err(Stop::Unspecified("a list holding a NaN is compared with itself"));
+        }
         let r = match op {
             BinOp::Eq => lang_eq(a, b),
             BinOp::Ne => !lang_eq(a, b),
